@@ -70,7 +70,7 @@ impl<'a> From<&'a ChildParentData> for ChildRenderContext<'a> {
 }
 
 struct FieldContainer<'a> {
-    gr_idx: usize,
+    gr_idx: Vec<usize>,
     path: String,
     field_data: FieldData<'a>
 }
@@ -265,13 +265,16 @@ fn struct_init_block<'a>(input: &'a Struct, ctx: &ImplContext) -> TokenStream {
     group_paths.insert("".into(), 0);
 
     let mut make_tuple = |path: String, field_data: FieldData<'a>| {
-        if group_paths.contains_key(&path) {
-            let gr_idx = *group_paths.get(&path).unwrap();
-            (FieldContainer { gr_idx, path, field_data }, false)
-        } else {
-            group_paths.insert(path.clone(), group_paths.len());
-            (FieldContainer { gr_idx: group_paths.len() - 1, path, field_data}, true)
-        }
+        let is_new = !group_paths.contains_key(&path);
+        // one group index per prefix of the path (the nested structs on the way), then one for the members of the
+        // innermost struct, so that everything under a nested struct stays in one piece
+        let slot = format!("{path}.");
+        let gr_idx = slot.match_indices('.').map(|(i, _)| &slot[..i]).chain([slot.as_str()])
+            .map(|p| {
+                let idx = group_paths.len();
+                *group_paths.entry(p.to_string()).or_insert(idx)
+            }).collect();
+        (FieldContainer { gr_idx, path, field_data }, is_new)
     };
 
     let mut fields: Vec<FieldContainer> = vec![];
